@@ -16,7 +16,11 @@ import (
 
 // C06 — SK payload follows RFC 7296 section 3.14 and interoperates with an independent peer.
 
-var c06Forward = probe.Define("C06", "forward", func(t *rapid.T) protIn { return genProt(t, gen.Opts{}) },
+var c06Forward = probe.Define("C06", "forward", func(t *rapid.T) protIn {
+	in := genProt(t, gen.Opts{})
+	equalDirections(t, &in)
+	return in
+},
 	func(in protIn) probe.Outcome {
 		sa, err := bridge.NewSA(in.Suite, in.Keys)
 		if err != nil {
@@ -72,6 +76,7 @@ type c06RevIn struct {
 
 var c06Reverse = probe.Define("C06", "reverse", func(t *rapid.T) c06RevIn {
 	in := c06RevIn{protIn: genProt(t, gen.Opts{MaxChain: 65400 - 256})}
+	equalDirections(t, &in.protIn)
 	in.Entropy = nil
 	in.IV = gen.Fill(t, "iv", 16)
 	in.PadBlocks = -1
